@@ -112,6 +112,25 @@ def Sentinel.multi (c : Sentinel) (opted : List Bool) : Target :=
   else if c.hasPred then (if c.sendAll opted then .someReplica else .primary)
   else .primary
 
+/-! ### ConnLifetime recovery inside a batch (client.go / sentinel.go DoMulti, DoMultiCache, `hasLftm`) -/
+
+/-- The connection calls of one round of DoMulti / DoMultiCache when ConnLifetime is set. The first call
+    carries the whole batch (`start = 0`); if in a call the replies from batch position `p` on are
+    errConnExpired, the rest `multi[p:]` is sent again — on the connection `t` that was picked for the WHOLE
+    batch before the loop (`cc := c.pickMulti(sendToReplica)`; the single client has only one).
+    `exp` lists `p` per call (`p ≥ n`: nothing expired); the result lists (first position, target). -/
+def recoverCalls (n : Nat) (t : Target) : (exp : List Nat) → (start : Nat) → List (Nat × Target)
+  | [], start => [(start, t)]
+  | p :: rest, start =>
+    if start ≤ p ∧ p < n then (start, t) :: recoverCalls n t rest p else [(start, t)]
+
+def Sentinel.multiCalls (c : Sentinel) (opted : List Bool) (exp : List Nat) : List (Nat × Target) :=
+  recoverCalls opted.length (c.multi opted) exp 0
+
+def Standalone.multiCalls (s : Standalone) (cache : Bool) (opted : List Bool) (sel : Int) (exp : List Nat) :
+    List (Nat × Target) :=
+  recoverCalls opted.length (if cache then s.cache else s.multi opted sel) exp 0
+
 /-! ### cluster.go -/
 
 structure Cluster where
